@@ -19,6 +19,7 @@ class ArmPath:
         self.facts = []        # (cond node, polarity) branch decisions taken, in order
         self.events = []       # ordered ('store'|'call'|'branch', payload)
         self.notes = []
+        self.truth = {}        # bool variable -> (leaves, f) whose non-zero-ness it holds
 
 
 def idx_desc(node):
@@ -58,6 +59,21 @@ def eval_bits(path, expr):
         return None
 
 
+def truth_of(path, expr):
+    """(leaves, f) such that expr is true iff f != 0, for `E != 0`, `0 != E` and bitwise E"""
+    n = expr.strip_all_casts()
+    if n.k == "BinaryOperator" and n.get("op") == "!=":
+        a, b = n.child(0), n.child(1)
+        if C.const_of(b) == 0:
+            return eval_bits(path, a)
+        if C.const_of(a) == 0:
+            return eval_bits(path, b)
+    p = n.get("path")
+    if p in path.truth:
+        return path.truth[p]
+    return eval_bits(path, n)
+
+
 def reg_path_key(path, target):
     """env key for a store target that is an element of context->registers[]"""
     if target.k == "ArraySubscriptExpr":
@@ -77,6 +93,10 @@ def process_elem(path, n):
                 v = eval_bits(path, init)
                 if v is not None:
                     path.env[d["name"]] = v
+                else:
+                    tv = truth_of(path, init)
+                    if tv is not None:
+                        path.truth[d["name"]] = tv
                 s = init.strip_all_casts()
                 if s.get("path") and s.k in ("MemberExpr", "DeclRefExpr"):
                     path.sym[d["name"]] = path.sym.get(s["path"], s["path"])
